@@ -97,6 +97,8 @@ class Unroll(ast.NodeTransformer):
         def lit(x):
             if isinstance(x, ast.Name) and x.id in self.consts:
                 return self.consts[x.id]
+            if isinstance(x, ast.Attribute) and isinstance(x.value, ast.Name) and f'{x.value.id}.{x.attr}' in self.consts:
+                return self.consts[f'{x.value.id}.{x.attr}']       # a class-level table: Cls.T / self.T / cls.T
             return x
         if isinstance(it, ast.Call) and isinstance(it.func, ast.Attribute) and not it.args and not it.keywords \
                 and it.func.attr in ('items', 'keys', 'values'):
@@ -166,11 +168,48 @@ class Unroll(ast.NodeTransformer):
 
     visit_AsyncFunctionDef = visit_FunctionDef
 
+    def visit_ClassDef(self, c):
+        # class-level tables of constants (`_EQ_ATTRIBUTES = ('parameters', ..)`) read as Cls.T, self.T or cls.T in the methods
+        added = []
+        assigned = {}
+        for s_ in c.body:
+            if isinstance(s_, ast.Assign) and len(s_.targets) == 1 and isinstance(s_.targets[0], ast.Name):
+                assigned[s_.targets[0].id] = assigned.get(s_.targets[0].id, 0) + 1
+        for s_ in c.body:
+            if isinstance(s_, ast.Assign) and len(s_.targets) == 1 and isinstance(s_.targets[0], ast.Name) \
+                    and assigned[s_.targets[0].id] == 1 and isinstance(s_.value, (ast.Tuple, ast.List)) and s_.value.elts \
+                    and all(_is_const(e) for e in s_.value.elts):
+                for pre in (c.name, 'self', 'cls'):
+                    k = f'{pre}.{s_.targets[0].id}'
+                    if k not in self.consts:
+                        self.consts[k] = s_.value
+                        added.append(k)
+        try:
+            self.generic_visit(c)
+        finally:
+            for k in added:
+                self.consts.pop(k, None)
+        return c
+
     def visit_For(self, n):
         """`for a, b in ((x1, y1), (x2, y2)): body` over a literal table of rows: the body once per row (statement form of the
         same idea: `for name, src, dst in (('K23', central, peripheral), ('K32', peripheral, central)): ...`)"""
         self.generic_visit(n)
         it = n.iter
+        # `for attr in _TABLE: if getattr(a, attr) != getattr(b, attr): return False` over a table of constants
+        if not n.orelse and isinstance(it, (ast.Name, ast.Attribute)) and isinstance(n.target, ast.Name):
+            ents = self.entries(it)
+            if ents is not None and len(ents) <= 12 and all(_is_const(e) for e in ents) and not any(
+                    isinstance(x, (ast.Break, ast.Continue, ast.FunctionDef, ast.Lambda, ast.AsyncFunctionDef))
+                    or (isinstance(x, ast.Name) and x.id == n.target.id and not isinstance(x.ctx, ast.Load))
+                    for s_ in n.body for x in ast.walk(s_)) \
+                    and sum(1 for s_ in n.body for x in ast.walk(s_) if isinstance(x, ast.stmt)) * len(ents) <= 60:
+                out = []
+                for e in ents:
+                    for s_ in n.body:
+                        out.append(ast.copy_location(_Fold().visit(_Subst({n.target.id: e}).visit(copy.deepcopy(s_))), s_))
+                self.count += 1
+                return out
         if n.orelse or not isinstance(it, (ast.Tuple, ast.List)) or not it.elts or len(it.elts) > 6 \
                 or not isinstance(n.target, (ast.Tuple, ast.List)) or not all(isinstance(t, ast.Name) for t in n.target.elts):
             return n
@@ -337,6 +376,10 @@ def unroll(tree):
             if type(x.iter) in (ast.Tuple, ast.List) and type(x.target) in (ast.Tuple, ast.List) and x.iter.elts \
                     and all(type(r) in (ast.Tuple, ast.List) for r in x.iter.elts):
                 row_loops = True
+            elif type(x.target) is ast.Name and (
+                    (type(x.iter) is ast.Name and x.iter.id in consts) or (
+                        type(x.iter) is ast.Attribute and type(x.iter.value) is ast.Name and x.iter.attr.isupper())):
+                row_loops = True        # a statement loop over a (module- or class-level) table of constants
         elif t is ast.Subscript or t is ast.Attribute:
             if type(x.ctx) is not ast.Load and type(x.value) is ast.Name:
                 stores[x.value.id] = stores.get(x.value.id, 0) + 2
